@@ -144,6 +144,8 @@ def run(ctx):
     # --- correspondence with the Lean model
     texts = list(dict.fromkeys(texts))
     cdcgen.compare(ctx, texts, "spellings+serialisations")
+    # the tokenizer on its own (the function tokenize_inverts_render / roundtrip_text are about): same token classes and texts
+    cdcgen.compare_tokens(ctx, texts, "tok:spellings+serialisations")
     for s in texts[:3] + texts[-2:]:
         ctx.sample(s[:300], limit=8)
     ctx.undecided.append("'to the printed precision': %.{d}E / float() are runtime; numbers compared to 1e-13")
